@@ -157,6 +157,15 @@ def extract(repo):
         if not mm:
             raise ValueError(f"{fn}: reset of maxFileId not found")
         resets.append(int(mm.group(1)))
+    gcc = open(os.path.join(repo, "src/clutils/gennodearray.cc")).read()
+    cb = _body(gcc, "GenNodeArray::Check(")
+    mg = re.search(r"if\s*\(\s*index\s*>=\s*_bufsize\s*\)\s*\{\s*_bufsize\s*=\s*([^;]+);", cb)
+    if not mg:
+        raise ValueError("GenNodeArray::Check: growth rule `if( index >= _bufsize ) { _bufsize = <expr>;` not found")
+    gexpr = mg.group(1).strip()
+    if not re.fullmatch(r"[\s\d()+*index]+", gexpr):
+        raise ValueError(f"GenNodeArray::Check: unsupported growth expression {gexpr!r}")
+    grow = re.sub(r"\bindex\b", "i", gexpr)
     m = re.search(r"#define\s+ARRAY_DEFAULT_SIZE\s*\(?\s*(\d+)", ga)
     if not m:
         raise ValueError("ARRAY_DEFAULT_SIZE not found")
@@ -185,6 +194,8 @@ def deleteAllMaxFileId : Int := {resets[1]}
 def unassignedFileId : Int := {unassigned}
 /-- `ARRAY_DEFAULT_SIZE` -/
 def arrayDefaultSize : Nat := {dflt}
+/-- `GenNodeArray::Check`: the new `_bufsize` when `index >= _bufsize` -/
+def growTo (i : Nat) : Nat := {grow}
 
 end StepModel.Generated
 """
